@@ -211,6 +211,9 @@ def r15_3(ctx):
     _sd = _sdf(ec.node)
     render = [n.id for n in g.stmt_nodes() if n.kind == "stmt" and any(isinstance(c, ast.Call) and norm(c.func) == "self._render_buffer" and c.args and "self._buffer" in norm(_inl(c.args[0], _sd)) for c in ast.walk(n.stmt))]
     clear = [n.id for n in g.stmt_nodes() if n.kind == "stmt" and isinstance(n.stmt, ast.Delete) and any("self._buffer" in norm(_inl(t, _sd)) for t in n.stmt.targets)]
+    # list.clear() on the buffer (or a local name for it) empties it just the same
+    clear += [n.id for n in g.stmt_nodes() if n.kind == "stmt" and isinstance(n.stmt, ast.Expr) and isinstance(n.stmt.value, ast.Call) and isinstance(n.stmt.value.func, ast.Attribute)
+              and n.stmt.value.func.attr == "clear" and not n.stmt.value.args and norm(_inl(n.stmt.value.func.value, _sd)) == "self._buffer"]
     exitb = [n.id for n in g.stmt_nodes() if n.kind == "stmt" and any(isinstance(c, ast.Call) and norm(c.func) == "self._exit_buffer" for c in ast.walk(n.stmt))]
     ok = bool(render) and bool(clear) and bool(exitb)
     if ok:
